@@ -138,7 +138,11 @@ func runC03(rc *runCtx) *RunResult {
 		e = s2.NewEdgeCrosser(a, b)
 		rc.log("NewEdgeCrosser(a,b) a=%v b=%v", a, b)
 	}
-	n := 1 + int(t.Uint(40))
+	maxCalls := uint32(40)
+	if rc.tier == "thorough" {
+		maxCalls = 120
+	}
+	n := 1 + int(t.Uint(maxCalls))
 	sig := uint64(1469598103934665603)
 	kinds := map[uint32]bool{}
 	for i := 0; i < n; i++ {
